@@ -133,6 +133,7 @@ func (t athread) String() string {
 type arun struct {
 	a     anyAdder
 	float bool
+	wild  bool // arbitrary floats: no order-independent reference
 	h     history
 	panic string // first panic of a logical thread (recovered): a violation, never a silent crash
 }
@@ -201,6 +202,8 @@ var probeEdges = []uint32{0, 1, 2, 3, 1, 0x80000000, 5, 2, 7, 0x80000001, 1 << 2
 var extremeInts = []int64{0, 1, -1, math.MaxInt64, math.MinInt64, math.MaxInt64 - 1, math.MinInt64 + 1, 1 << 62, -(1 << 62), 1 << 32, -1 << 31}
 
 // program: phases 1 (concurrent), 2 (solo maintenance), 3 (concurrent), 4 (final solo sum)
+var lastWild bool // set by genAdderProgram: the program just generated uses arbitrary floats
+
 func genAdderProgram(rng *rand.Rand, family string, float bool, mutex bool) (ths []athread, xs []int64) {
 	bit := 0
 	one, minusOne := int64(1), int64(-1)
@@ -215,9 +218,23 @@ func genAdderProgram(rng *rand.Rand, family string, float bool, mutex bool) (ths
 	if pow2 && !float {
 		units = rng.Intn(8) == 0
 	}
+	// "wild" float runs (a third of the float runs of family any): arbitrary finite doubles of all magnitudes (subnormals to 2^900,
+	// both signs), so that every addition rounds. There is no order-independent reference for such sums: these runs are judged by the
+	// step-level acceptance against the exact IEEE-754 model only (the Go monitors are switched off for them).
+	lastWild = float && family == "any" && rng.Intn(3) == 0
+	wildVal := func() int64 {
+		e := uint64(rng.Intn(1924)) // biased exponent 0 (subnormal) .. 1923 (2^900)
+		m := rng.Uint64() & (1<<52 - 1)
+		if rng.Intn(4) == 0 {
+			m &= ^uint64(0) << uint(rng.Intn(52)) // short significands: exact cancellations happen
+		}
+		return int64(uint64(rng.Intn(2))<<63 | e<<52 | m)
+	}
 	mkAdd := func() aop {
 		var x int64
 		switch {
+		case lastWild:
+			x = wildVal()
 		case float:
 			// exactly representable partial sums: distinct powers of two 2^0..2^40, some negative twins of earlier ones
 			x = bf(float64(int64(1) << uint(bit%41)))
@@ -358,6 +375,7 @@ func runAdder(fs *flag.FlagSet, args []string) {
 		a, float, call, dyn := newAdder(*impl, via)
 		r := &arun{a: a, float: float}
 		ths, xs := genAdderProgram(rng, family, float, *impl == "mutex")
+		r.wild = lastWild
 		alg := "int"
 		if float {
 			alg = "float"
@@ -382,7 +400,7 @@ func runAdder(fs *flag.FlagSet, args []string) {
 			s.phase[i] = th.phase
 			desc = append(desc, fmt.Sprintf("t%d=%s", i, th))
 		}
-		runf(run, "family=%s impl=%s ctor=%s maxcells=%d %s", family, *impl, call, mc, strings.Join(desc, " "))
+		runf(run, "family=%s impl=%s ctor=%s maxcells=%d wild=%v %s", family, *impl, call, mc, r.wild, strings.Join(desc, " "))
 		if want := adderVariants[*impl].dyn; dyn != want {
 			// no property tag: whichever check runs this variant is not looking at the documented implementation
 			monf(run, "FAIL %s returned %s; adder/pkg.go documents %s for this constructor", call, dyn, want)
@@ -418,6 +436,9 @@ func (r *arun) plus(a, b int64) int64 {
 }
 
 func monitorAdder(r *arun, ths []athread, xs []int64, mutex bool) string {
+	if r.wild {
+		return "" // arbitrary floats: acceptance against the exact model only
+	}
 	zero := int64(0)
 	if r.float {
 		zero = bf(0)
